@@ -182,40 +182,7 @@ theorem sigs_put {q : EQueue} (s : Sig) (h : q.Sorted) : (q.put s).sigs = stable
 
 /-! ### `listSet` (= `List.modify`) -/
 
-theorem getD_listSet {α} (l : List α) (i j : Nat) (f : α → α) (d : α) (hd : f d = d) :
-    (listSet l i f).getD j d = if i = j then f (l.getD j d) else l.getD j d := by
-  unfold listSet
-  simp only [List.getD_eq_getElem?_getD, List.getElem?_modify]
-  split
-  · cases l[j]? <;> simp [hd]
-  · cases l[j]? <;> simp
-
-theorem getD_listSet_ne {α} (l : List α) (i j : Nat) (f : α → α) (d : α) (h : i ≠ j) :
-    (listSet l i f).getD j d = l.getD j d := by
-  unfold listSet
-  simp [List.getD_eq_getElem?_getD, h]
-
-theorem getD_listSet_self {α} (l : List α) (i : Nat) (f : α → α) (d : α) (h : i < l.length) :
-    (listSet l i f).getD i d = f (l.getD i d) := by
-  unfold listSet
-  simp [List.getD_eq_getElem?_getD, h]
-
 @[simp] theorem length_listSet {α} (l : List α) (i : Nat) (f : α → α) : (listSet l i f).length = l.length := by
   unfold listSet; simp
-
-theorem mem_listSet {α} {l : List α} {i : Nat} {f : α → α} {x : α} (h : x ∈ listSet l i f) :
-    x ∈ l ∨ ∃ y ∈ l, x = f y := by
-  unfold listSet at h
-  rw [List.mem_iff_getElem?] at h
-  obtain ⟨j, hj⟩ := h
-  rw [List.getElem?_modify] at hj
-  split at hj
-  · cases hl : l[j]? with
-    | none => simp [hl] at hj
-    | some y =>
-      simp [hl] at hj
-      exact .inr ⟨y, List.mem_of_getElem? hl, hj.symm⟩
-  · simp at hj
-    exact .inl (List.mem_of_getElem? hj)
 
 end Simpleline
